@@ -25,6 +25,8 @@ type hrun struct {
 	Covers     []string // labels that must be reached (vacuity witnesses) in addition to >=1 assertion
 	MaxSteps   int
 	NoNative   bool // sample paths are not replayed natively (harness uses executor-only facilities)
+	Threads    bool // go statements / verifGo become interpreted, schedulable threads
+	Stress     int  // native replays repeat the harness this many times (real goroutines: the Go scheduler picks the interleaving)
 }
 
 type propCheck struct {
@@ -100,6 +102,7 @@ import (
 	"os"
 	"strings"
 	"testing"
+	"time"
 )
 
 func TestVerifReplay(t *testing.T) {
@@ -118,27 +121,46 @@ func TestVerifReplay(t *testing.T) {
 		if !ok {
 			t.Fatalf("unknown harness %%s", verifVec.Harness)
 		}
-		func() {
-			defer func() {
-				if r := recover(); r != nil {
-					if _, ok := r.(verifSkip); ok {
-						return
-					}
-					verifFailures = append(verifFailures, fmt.Sprint("panic: ", r))
+		// harnesses with real goroutines are repeated (stress) because the Go scheduler,
+		// not the replay vector, picks the interleaving natively
+		iters := 1
+		if n := verifVec.Params["VERIF_STRESS"]; n > 0 {
+			iters = n
+		}
+		fmt.Printf("VERIF-REPLAY-BEGIN %%s\n", path)
+		deadline := time.Now().Add(20 * time.Second)
+		var failures []string
+		skipped := false
+		var log []string
+		for it := 0; it < iters && len(failures) == 0 && time.Now().Before(deadline); it++ {
+			if it > 0 {
+				if err := verifLoad(path); err != nil {
+					t.Fatal(err)
 				}
+			}
+			func() {
+				defer func() {
+					if r := recover(); r != nil {
+						if _, ok := r.(verifSkip); ok {
+							return
+						}
+						verifFailures = append(verifFailures, fmt.Sprint("panic: ", r))
+					}
+				}()
+				h()
 			}()
-			h()
-		}()
+			failures, skipped, log = verifFailures, verifSkipped, verifLog
+		}
 		switch {
-		case verifSkipped:
-			fmt.Printf("VERIF-REPLAY %%s SKIPPED (assumption false natively)\n", path)
-		case len(verifFailures) > 0:
-			fmt.Printf("VERIF-REPLAY %%s FAIL %%q\n", path, verifFailures)
+		case len(failures) > 0:
+			fmt.Printf("VERIF-REPLAY %%s FAIL %%q\n", path, failures)
 			bad = true
+		case skipped:
+			fmt.Printf("VERIF-REPLAY %%s SKIPPED (assumption false natively)\n", path)
 		default:
 			fmt.Printf("VERIF-REPLAY %%s PASS\n", path)
 		}
-		for _, l := range verifLog {
+		for _, l := range log {
 			fmt.Printf("  observe %%s\n", l)
 		}
 	}
@@ -148,8 +170,11 @@ func TestVerifReplay(t *testing.T) {
 }
 `
 
-// nativeReplay runs the replay vectors against the real build with go test
-// -overlay. It returns, per path, "FAIL <labels>", "PASS" or "SKIPPED".
+// nativeReplay runs the replay vectors against the real build: the harness
+// files and a generated test are overlaid onto /repo (go test -c -overlay),
+// and the test binary is run on the vectors. It returns, per path, "FAIL
+// <labels>", "PASS" or "SKIPPED". A vector whose run kills the process
+// (unrecovered panic in a goroutine of the code under test) counts as FAIL.
 func nativeReplay(paths []string, harnesses []string) (map[string]string, string, error) {
 	tmp, err := os.MkdirTemp("", "verif-replay-")
 	if err != nil {
@@ -177,20 +202,61 @@ func nativeReplay(paths []string, harnesses []string) (map[string]string, string
 	ovJSON, _ := json.Marshal(map[string]interface{}{"Replace": ov})
 	ovPath := filepath.Join(tmp, "overlay.json")
 	os.WriteFile(ovPath, ovJSON, 0o644)
-	cmd := exec.Command("go", "test", "-vet=off", "-count=1", "-v", "-run", "^TestVerifReplay$", "-timeout", "300s", "-overlay", ovPath, ".")
-	cmd.Dir = repoDir
-	cmd.Env = append(os.Environ(), "GOFLAGS=-mod=mod", "GOPROXY=off", "GOSUMDB=off", "GOTOOLCHAIN=local", "VERIF_REPLAY="+strings.Join(paths, ":"))
-	out, _ := cmd.CombinedOutput()
+	bin := filepath.Join(tmp, "replay.test")
+	env := append(os.Environ(), "GOFLAGS=-mod=mod", "GOPROXY=off", "GOSUMDB=off", "GOTOOLCHAIN=local")
+	build := exec.Command("go", "test", "-c", "-vet=off", "-overlay", ovPath, "-o", bin, ".")
+	build.Dir = repoDir
+	build.Env = env
+	if out, err := build.CombinedOutput(); err != nil {
+		return nil, string(out), fmt.Errorf("building the replay test failed: %v\n%s", err, out)
+	}
 	res := map[string]string{}
-	for _, line := range strings.Split(string(out), "\n") {
-		if strings.HasPrefix(line, "VERIF-REPLAY ") {
-			f := strings.SplitN(line[len("VERIF-REPLAY "):], " ", 2)
-			if len(f) == 2 {
-				res[f[0]] = f[1]
+	var all strings.Builder
+	remaining := append([]string{}, paths...)
+	for len(remaining) > 0 {
+		cmd := exec.Command(bin, "-test.run", "^TestVerifReplay$", "-test.v", "-test.timeout", "600s")
+		cmd.Dir = repoDir
+		cmd.Env = append(env, "VERIF_REPLAY="+strings.Join(remaining, ":"))
+		outB, _ := cmd.CombinedOutput()
+		out := string(outB)
+		all.WriteString(out)
+		begun := ""
+		for _, line := range strings.Split(out, "\n") {
+			if strings.HasPrefix(line, "VERIF-REPLAY-BEGIN ") {
+				begun = strings.TrimSpace(line[len("VERIF-REPLAY-BEGIN "):])
+			} else if strings.HasPrefix(line, "VERIF-REPLAY ") {
+				f := strings.SplitN(line[len("VERIF-REPLAY "):], " ", 2)
+				if len(f) == 2 {
+					res[f[0]] = f[1]
+					if f[0] == begun {
+						begun = ""
+					}
+				}
 			}
 		}
+		if begun != "" {
+			// the process died while running this vector
+			msg := "process died"
+			for _, line := range strings.Split(out, "\n") {
+				if strings.HasPrefix(line, "panic: ") || strings.HasPrefix(line, "fatal error: ") {
+					msg = line
+					break
+				}
+			}
+			res[begun] = "FAIL [crash: " + msg + "]"
+		}
+		var next []string
+		for _, pth := range remaining {
+			if _, ok := res[pth]; !ok {
+				next = append(next, pth)
+			}
+		}
+		if len(next) == len(remaining) {
+			break // no progress
+		}
+		remaining = next
 	}
-	return res, string(out), nil
+	return res, all.String(), nil
 }
 
 type harnessEvidence struct {
@@ -298,6 +364,7 @@ func cmdCheck(args []string) int {
 		}
 		e.Params = r.Params
 		e.Opt.AppendFork = r.AppendFork
+		e.Opt.Threads = r.Threads
 		if r.MaxSteps > 0 {
 			e.Opt.MaxSteps = r.MaxSteps
 		}
@@ -326,7 +393,14 @@ func cmdCheck(args []string) int {
 				he.Violations++
 			}
 			allViol = append(allViol, v)
-			violParams = append(violParams, r.Params)
+			vp := map[string]int{}
+			for k, x := range r.Params {
+				vp[k] = x
+			}
+			if r.Stress > 0 {
+				vp["VERIF_STRESS"] = r.Stress
+			}
+			violParams = append(violParams, vp)
 		}
 		for f := range st.Funcs {
 			funcs[f] = true
